@@ -1,4 +1,4 @@
-/* C04 — element namespace: unique paths, owner-only mutation, state/method typing.
+/* C04 - element namespace: unique paths, owner-only mutation, state/method typing.
  * All action sequences up to a depth by two peers (raw, websocket) over a 3-path universe drawn from adversarial
  * paths (empty, case twins, 400 bytes, non-ASCII, hash-colliding), compared after every step with a reference map
  * through three views: the responses, `get` from an observer, and the observer's permanent fetch-all replica. */
